@@ -63,6 +63,8 @@ impl<const K: u8, const J: u8> From<A<K>> for B<J> { fn from(a: A<K>) -> Self { 
 
 // ---- custom methods (deliberately asymmetric / distinguishable from the built-in behaviour)
 pub fn m_eq<T: Val>(a: &T, b: &T) -> bool { log(format!("m_eq {} {}", a.v(), b.v())); a.v() <= b.v() }
+/// an equality consistent with `m_hash` (which feeds `v`)
+pub fn m_eqv<T: Val>(a: &T, b: &T) -> bool { a.v() == b.v() }
 pub fn m_cmp<T: Val>(a: &T, b: &T) -> Ordering { b.v().cmp(&a.v()) }
 pub fn m_pcmp<T: Val>(a: &T, b: &T) -> Option<Ordering> {
     if a.v() == NAN { None } else { Some(b.v().cmp(&a.v())) }
@@ -79,6 +81,11 @@ pub mod g {
     pub fn m_pcmp<const Z: u8, T: Val>(a: &T, b: &T) -> Option<Ordering> { super::m_pcmp(a, b) }
     pub fn m_hash<const Z: u8, T: Val, H: Hasher>(a: &T, h: &mut H) { super::m_hash(a, h) }
     pub fn m_fmt<const Z: u8, T: Val>(a: &T, f: &mut fmt::Formatter<'_>) -> fmt::Result { super::m_fmt(a, f) }
+    pub fn m_eqv<const Z: u8, T: Val>(a: &T, b: &T) -> bool { super::m_eqv(a, b) }
+    pub fn m_clone<const Z: u8, const K: u8>(a: &A<K>) -> A<K> { super::m_clone(a) }
+    pub fn m_clone_c<const Z: u8, const K: u8>(a: &C<K>) -> C<K> { super::m_clone_c(a) }
+    pub fn m_into<const Z: u8, const K: u8, const J: u8>(a: A<K>) -> B<J> { super::m_into(a) }
+    pub fn m_same<const Z: u8, const K: u8>(a: A<K>) -> A<K> { super::m_same(a) }
 }
 pub fn m_clone<const K: u8>(a: &A<K>) -> A<K> { log(format!("m_clone A{} {}", K, a.0)); A(a.0.wrapping_add(50)) }
 pub fn m_clone_c<const K: u8>(a: &C<K>) -> C<K> { log(format!("m_clone C{} {}", K, a.0)); C(a.0.wrapping_add(50)) }
